@@ -579,8 +579,10 @@ where
             let chunk_row_len: usize = arr.shape[depth + 1..].iter().product();
             let data_slice = arr.data.as_mut_slice();
             if chunk_len == 0 {
+                // The array has no elements, but every reduced row gets one
+                let elem_count = validate_size::<T>([chunk_count, chunk_row_len], env)?;
                 let val = default.unwrap_or(identity);
-                arr.data = cowslice![val; chunk_count * chunk_row_len];
+                arr.data = cowslice![val; elem_count];
             } else {
                 for c in 0..chunk_count {
                     let chunk_start = c * chunk_len;
